@@ -126,7 +126,7 @@ PROPS["C01"] = dict(
         dict(name="order", test="TestOrder", quick=12000, thorough=400000, shards=16),
     ],
     technique="rapid witness-first typed program generator + random semantics-preserving rearrangement; metamorphic oracle on an order-insensitive canonical form of the evaluated value",
-    level_text="exploration: generated programs (fragment tier T1: data, types, bounds, references, arithmetic/interpolation, lists, nested structs, 1-3 conjuncts per field, un-nested disjunctions and defaults) are rearranged (declaration permutation at every level, operand swap, split x: a & b, duplicated conjuncts, & _, sole-embedding wrapper, partition over 2-3 files) and must evaluate to the same canonical value.",
+    level_text="exploration: generated programs (fragment tier T1: data, types, bounds, references, arithmetic/interpolation, lists, nested structs, 1-3 conjuncts per field, un-nested disjunctions and defaults, types through definition references, list comprehensions, discriminated struct disjunctions, selector and wrapped references, 10% programs with one deliberately conflicting conjunct) are rearranged (declaration permutation at every level, operand swap, split x: a & b, duplicated conjuncts, & _, sole-embedding wrapper, partition over 2-3 files) and must evaluate to the same canonical value.",
     level_note="trusted: the canonical form (fields sorted, disjuncts/defaults as sets, bounds as sets, errors reduced to INCOMPLETE/ERR, closedness flags) computed from the finalized adt.Vertex; when either side has a fatal error only the presence of a fatal error is compared (known finding F2)",
     rule="P = witness-first typed program (tier T1), P' = random rearrangement of P; canon(eval P) must equal canon(eval P'), each evaluated in a fresh context. Non-trivial = P' differs textually from P and P has a conjunction, a disjunction, close() or a repeated label; distinct = distinct (P, P') text pair.",
     assumptions=["fragment tier T1; tiers T2+ (close, optional fields, patterns, ellipsis, embedded literals) are excluded because the unchanged tree is order-dependent there (known findings F14/F27 family); run with VERIF_TIER_MAX=2 to see them",
